@@ -12,7 +12,7 @@ _TEMPLATES = {}
 def roundtrip_event(cls, obj, origin):
     out, wire, _ = call(lambda o: o.compose(), obj)
     ev = {'ev': 'rt', 'cls': cls.__module__.replace('cryptoparser.', '') + '.' + cls.__qualname__, 'origin': origin,
-          'compose': out, 'wire_len': 0, 'parse': '-', 'n': 0, 'p': dig(obj), 'back': '-'}
+          'compose': out, 'wire_len': 0, 'parse': '-', 'n': 0, 'p': dig(obj), 'back': '-', 'eq_ok': True, 'eq_converse': False}
     if out == 'ok':
         try:
             data = bytes(wire)
@@ -26,6 +26,24 @@ def roundtrip_event(cls, obj, origin):
         if o2 == 'ok':
             ev['n'] = _n(res[1])
             ev['back'] = dig(res[0])
+            # the library's own notion of equality (for classes that define one): field-by-field equal objects compare
+            # equal with ==, hash alike when hashable, and != is the negation
+            try:
+                import copy
+                # ... where the library's == is meaningful at all: an object that is not even equal to its own deep copy has
+                # parts that compare by identity, nothing can be said about it
+                # (objects edited in place are left out: the size a vector tracks for a nested element that was edited behind
+                # its back is stale and takes part in ==, which is the known limit of in-place edits, not of equality)
+                if type(res[0]) is type(obj) and type(obj).__eq__ is not object.__eq__ and ev['back'] == ev['p'] and \
+                        'inplace' not in origin and copy.deepcopy(obj) == obj:
+                    eq = bool(res[0] == obj) and bool(obj == res[0]) and not bool(res[0] != obj)
+                    try:
+                        eq = eq and hash(res[0]) == hash(obj)
+                    except TypeError:
+                        pass
+                    ev['eq_ok'] = eq
+            except Exception:  # pylint: disable=broad-except
+                ev['eq_ok'] = False
     return ev
 
 
@@ -45,7 +63,16 @@ def drive(arg):
             continue     # variant/factory classes return objects of other classes: covered under their own class
         events.append(roundtrip_event(cls, obj, 'parsed'))
         for desc, var in variants.variants(obj, rng, pool, per_field=14 if thorough else 7, others=objs):
-            events.append(roundtrip_event(cls, var, 'variant:' + desc))
+            ev = roundtrip_event(cls, var, 'variant:' + desc)
+            # the converse for ==: a variant that differs from the template in a field value is not equal to it
+            try:
+                if type(var) is type(obj) and type(obj).__eq__ is not object.__eq__ and 'other-bytes-type' not in desc and \
+                        not desc.startswith(('inplace', 'assigned-after-observing')) and ev['p'] != dig(obj) and (var == obj or not var != obj):
+                    ev['eq_ok'] = False
+                    ev['eq_converse'] = True
+            except Exception:  # pylint: disable=broad-except
+                pass
+            events.append(ev)
         for k in variants.nested_parsables(obj)[:20]:
             if type(k).__module__.startswith('cryptoparser.') and hasattr(type(k), 'parse_immutable'):
                 events.append(roundtrip_event(type(k), k, 'nested of ' + cls.__name__))
